@@ -34,7 +34,8 @@ def jobs_for(tier):
     rng = random.Random(sd)
     jobs = []
     if tier == "quick":
-        ccs = QUICK_CC
+        # (VERIF_HERD_CC: ad-hoc exploration of other countries with the quick recipe; never set by the registered commands)
+        ccs = os.environ["VERIF_HERD_CC"].split(",") if os.environ.get("VERIF_HERD_CC") else QUICK_CC
         months = 30
         for i, cc in enumerate(ccs):
             for j, st in enumerate(STRATS):
@@ -142,6 +143,8 @@ def describe(trace, l, clause):
     ev = trace["ev"][l - 1] if 0 < l <= len(trace["ev"]) else {"ev": "Finish"}
     month = sum(1 for e in trace["ev"][:l - 1] if e["ev"] == "EndMonth")
     key = "%s:%s" % (clause, ev.get("ev"))
+    if clause == "FlowsNonNeg" and ev.get("ev") == "Births":
+        key += ":%s:%s" % (job["cc"], ev.get("s"))    # (a property of the country's herd data: keyed by country and species)
     what = "%s %s feed=%s grass=%s month=%d event=%s species=%s" % (
         job["cc"], job["strategy"], job["feed"], job["grass"], month, ev.get("ev"), ev.get("s"))
     return key, what, dict(job=job, month=month, event_index=l, event=ev, clause=clause)
